@@ -131,3 +131,5 @@ func fmtSpans(s []Span, withVars bool) string {
 	b.WriteByte(']')
 	return b.String()
 }
+
+func itoa(n int) string { return strconv.Itoa(n) }
